@@ -1667,6 +1667,12 @@ fn mrun(sc: &MScript, names: &[String]) -> RRun {
             for (c, w) in mono_classes(site, "msg", (&prev.0, prev.1), (&now.0, now.1)) {
                 flag(&mut out.viol, &c, format!("{w} {at}"));
             }
+            if let MOp::AddPeer(p) = op {
+                out.hits.push(add_peer_hit(*p, &prev.0));
+                for (c, w) in add_peer_classes(*p, &prev.0, &now.0) {
+                    flag(&mut out.viol, &c, format!("{w} {at}"));
+                }
+            }
             if let MOp::Alive(x, i) = op {
                 match prev.0[*x] {
                     Some(b) if now.2 == prev.2 => {
@@ -1941,6 +1947,362 @@ fn alive_stream(rep: &mut Report, m: &mut Model, names: &[String], root: &Rng, c
     }
 }
 
+// ------------------------------------------------------------------ add_peer: late registration
+//
+// Entries of the view are created by add_peer (placeholder Unknown@0, fresh tick) AND by gossip (a
+// Sync that carries the member or that the member sent), independently of known_peers.  Registering
+// a member the view already holds is bookkeeping: it must leave every entry alone
+// (add_peer_of_known_member_is_identity, add_peer_keeps_every_entry), so managers handed the same
+// messages agree whenever — after learning the member — they registered it
+// (registration_point_does_not_matter).
+
+const ADD_PEER_SITE: &str = "tensor_chain.gossip.add_peer";
+
+/// `add_peer(p)`: every member that had an entry before the call holds exactly that entry afterwards
+fn add_peer_classes(p: usize, before: &CView, after: &CView) -> Vec<(String, String)> {
+    for mm in 0..K {
+        if let Some(b) = before[mm] {
+            if after[mm] != Some(b) {
+                return vec![(
+                    format!("{ADD_PEER_SITE}/known_member_overwritten"),
+                    format!(
+                        "add_peer(member {p}) is local bookkeeping and no membership update about member {mm} arrived, yet the entry the view held for member {mm} changed from {} to {}",
+                        reg_txt(Some(b)),
+                        reg_txt(after[mm])
+                    ),
+                )];
+            }
+        }
+    }
+    vec![]
+}
+
+fn add_peer_hit(p: usize, before: &CView) -> String {
+    match before[p] {
+        None => "reg.add_peer.on_absent".to_string(),
+        Some(b) => format!("reg.add_peer.on_{}.{}", ["healthy", "degraded", "failed", "unknown"][b.0], if b.2 == 0 { "inc0" } else { "inc_ge1" }),
+    }
+}
+
+/// the same messages for every manager; manager `g` additionally calls add_peer(member) right
+/// before message number `pos` (`pos == msgs.len()`: after the last one) for every (pos, member)
+/// in `regs[g]`
+#[derive(Clone, Debug)]
+struct AScript {
+    delta: u64,
+    msgs: Vec<MOp>,
+    regs: Vec<Vec<(usize, usize)>>,
+}
+
+impl AScript {
+    fn seq(&self, g: usize) -> Vec<MOp> {
+        let mut out = vec![];
+        for pos in 0..=self.msgs.len() {
+            for (q, mm) in &self.regs[g] {
+                if *q == pos {
+                    out.push(MOp::AddPeer(*mm));
+                }
+            }
+            if pos < self.msgs.len() {
+                out.push(self.msgs[pos].clone());
+            }
+        }
+        out
+    }
+    fn only(&self, gs: &[usize]) -> AScript {
+        AScript { regs: gs.iter().map(|&g| self.regs[g].clone()).collect(), ..self.clone() }
+    }
+    fn with_msgs(&self, keep: &[usize]) -> AScript {
+        AScript {
+            delta: self.delta,
+            msgs: keep.iter().map(|&i| self.msgs[i].clone()).collect(),
+            regs: self.regs.iter().map(|rs| rs.iter().map(|(q, mm)| (keep.iter().filter(|&&k| k < *q).count(), *mm)).collect()).collect(),
+        }
+    }
+    fn with_regs(&self, g: usize, keep: &[(usize, usize)]) -> AScript {
+        let mut c = self.clone();
+        c.regs[g] = keep.to_vec();
+        c
+    }
+}
+
+/// run a late-registration script on fresh real managers, with every oracle (no model in here)
+fn arun(sc: &AScript, names: &[String]) -> RRun {
+    let n = sc.regs.len();
+    let mut out = RRun { viol: vec![], lines: vec![vec![]; n], views: vec![], hits: vec![], targets: 0 };
+    let flag = |viol: &mut Vec<(String, String)>, class: &str, what: String| {
+        if !viol.iter().any(|(c, _)| c == class) {
+            viol.push((class.to_string(), what));
+        }
+    };
+    // did manager g call add_peer only for members its view already held?
+    let mut late_only = vec![true; n];
+    for g in 0..n {
+        let mgr = new_mgr(MVS_LOCAL, sc.delta, names);
+        out.lines[g].push((format!("mgr_new {g} {MVS_LOCAL} {}", sc.delta), String::new()));
+        let mut prev = (cview_of_list(&mgr.membership_view(), names), mgr.lamport_time());
+        for (k, op) in sc.seq(g).iter().enumerate() {
+            op.apply(&mgr, names);
+            let now = (cview_of_list(&mgr.membership_view(), names), mgr.lamport_time());
+            let at = format!("(manager {g}, step {}: `{}`)", k + 1, op.line(g));
+            for (c, w) in mono_classes("tensor_chain.gossip.handle_gossip", "msg", (&prev.0, prev.1), (&now.0, now.1)) {
+                flag(&mut out.viol, &c, format!("{w} {at}"));
+            }
+            if let MOp::AddPeer(p) = op {
+                out.hits.push(add_peer_hit(*p, &prev.0));
+                if prev.0[*p].is_none() {
+                    late_only[g] = false;
+                }
+                for (c, w) in add_peer_classes(*p, &prev.0, &now.0) {
+                    flag(&mut out.viol, &c, format!("{w} {at}"));
+                }
+            }
+            prev = now;
+            out.lines[g].push((op.line(g), mgr_answer(&mgr, names)));
+        }
+        out.views.push(prev);
+    }
+    // managers that registered only members they had already learned received the same updates
+    // and generated none of their own: identical health and incarnation for every member
+    let hi = |g: usize| -> Vec<Option<(usize, u64)>> { out.views[g].0.iter().map(|e| e.map(|e| (e.0, e.2))).collect() };
+    let late: Vec<usize> = (0..n).filter(|&g| late_only[g]).collect();
+    out.targets = if late.len() >= 2 && late.iter().any(|&g| !sc.regs[g].is_empty()) { 1 } else { 0 };
+    'pairs: for (a, &i) in late.iter().enumerate() {
+        for &j in &late[a + 1..] {
+            if hi(i) != hi(j) {
+                let mm = (0..K).find(|&mm| hi(i)[mm] != hi(j)[mm]).unwrap_or(0);
+                flag(
+                    &mut out.viol,
+                    &format!("{ADD_PEER_SITE}/managers_diverge_on_registration_point"),
+                    format!(
+                        "managers {i} and {j} handled the same messages in the same order and called add_peer only for members their view already held (at different points / not at all); they record member {mm} as {} and {}",
+                        reg_txt(out.views[i].0[mm]),
+                        reg_txt(out.views[j].0[mm])
+                    ),
+                );
+                break 'pairs;
+            }
+        }
+    }
+    out
+}
+
+fn afails(sc: &AScript, names: &[String], class: &str) -> bool {
+    arun(sc, names).viol.iter().any(|(c, _)| c == class)
+}
+
+fn areport(rep: &mut Report, stream: &str, case: &str, sc: &AScript, names: &[String], class: &str) {
+    if rep.violations.iter().filter(|v| v["class"] == class).count() >= 4 {
+        return;
+    }
+    let mut cur = sc.clone();
+    let n = cur.regs.len();
+    let mut done = false;
+    for i in 0..n {
+        let cand = cur.only(&[i]);
+        if afails(&cand, names, class) {
+            cur = cand;
+            done = true;
+            break;
+        }
+    }
+    if !done && n > 2 {
+        'two: for i in 0..n {
+            for j in (i + 1)..n {
+                let cand = cur.only(&[i, j]);
+                if afails(&cand, names, class) {
+                    cur = cand;
+                    break 'two;
+                }
+            }
+        }
+    }
+    let idx: Vec<usize> = (0..cur.msgs.len()).collect();
+    let kept = shrink_list(&idx, &mut |keep: &[usize]| afails(&cur.with_msgs(keep), names, class));
+    cur = cur.with_msgs(&kept);
+    for g in 0..cur.regs.len() {
+        if cur.regs[g].len() > 1 {
+            let rs = cur.regs[g].clone();
+            let kept = shrink_list(&rs, &mut |keep: &[(usize, usize)]| afails(&cur.with_regs(g, keep), names, class));
+            cur = cur.with_regs(g, &kept);
+        }
+    }
+    // entries of Sync batches
+    for i in 0..cur.msgs.len() {
+        if let MOp::Sync(s, t, b) = cur.msgs[i].clone() {
+            if b.len() > 1 {
+                let kept = shrink_list(&b, &mut |keep: &[Upd]| {
+                    let mut c = cur.clone();
+                    c.msgs[i] = MOp::Sync(s, t, keep.to_vec());
+                    afails(&c, names, class)
+                });
+                cur.msgs[i] = MOp::Sync(s, t, kept);
+            }
+        }
+    }
+    let run = arun(&cur, names);
+    let what = run.viol.iter().find(|(c, _)| c == class).map(|(_, w)| w.clone()).unwrap_or_default();
+    let hist: Vec<Value> = (0..cur.regs.len()).map(|g| json!(run.lines[g].iter().map(|(l, a)| if a.is_empty() { l.clone() } else { format!("{l}  ->  {a}") }).collect::<Vec<_>>())).collect();
+    let views: Vec<String> = run.views.iter().map(|(v, c)| view_txt(*c, v)).collect();
+    rep.violation_capped(
+        class,
+        &what,
+        json!({"stream": stream, "case": case, "managers": cur.regs.len(), "local_node": MVS_LOCAL, "max_incarnation_delta": cur.delta,
+               "history_per_manager": hist, "final_views": views,
+               "messages_before_shrinking": sc.msgs.len(), "managers_before_shrinking": sc.regs.len()}),
+    );
+}
+
+fn acase(rep: &mut Report, m: &mut Model, stream: &str, case: &str, sc: &AScript, names: &[String]) {
+    let run = arun(sc, names);
+    let mut live = true;
+    for g in 0..sc.regs.len() {
+        for (i, (line, imp)) in run.lines[g].iter().enumerate() {
+            if imp.is_empty() {
+                m.ask(line); // mgr_new
+                continue;
+            }
+            if live {
+                let ans = strip_mgr(&m.ask(line));
+                live = rep.compare(stream, || json!({"case": case, "max_incarnation_delta": sc.delta, "history": run.lines[g][..=i].iter().map(|x| x.0.clone()).collect::<Vec<_>>()}), imp, &ans);
+                if !live {
+                    rep.hit("reg.real_only_after_divergence");
+                }
+            }
+        }
+    }
+    for h in &run.hits {
+        rep.hit(h);
+    }
+    rep.hit_n("reg.cases_checked_for_registration_point_independence", run.targets as u64);
+    for (class, _) in &run.viol {
+        areport(rep, stream, case, sc, names, class);
+    }
+    let key = format!("{case}|{}", (0..sc.regs.len()).map(|g| run.lines[g].iter().map(|x| x.0.clone()).collect::<Vec<_>>().join("/")).collect::<Vec<_>>().join("||"));
+    rep.case(stream, if run.targets > 0 { Some(&key) } else { None });
+}
+
+fn directed_add_peer(rep: &mut Report, m: &mut Model, names: &[String]) {
+    let rt = tokio::runtime::Builder::new_current_thread().build().unwrap();
+    let _guard = rt.enter();
+    let stream = "mgr.late_add_peer.directed";
+    let s = MVS_SENDER;
+    let mut cases: Vec<(String, AScript)> = vec![];
+    // the minimal history: one Sync from a third node tells of member 2, then member 2 is registered
+    // (manager 0 never registers it, manager 2 registered it before the Sync)
+    for (hn, h) in [("healthy", 'H'), ("degraded", 'D'), ("failed", 'F'), ("unknown", 'U')] {
+        for inc in [0u64, 1, 2] {
+            cases.push((
+                format!("learned_{hn}_at_{inc}_by_sync_then_registered"),
+                AScript { delta: 100, msgs: vec![MOp::Sync(s, 50, vec![up(2, h, 50, inc)])], regs: vec![vec![], vec![(1, 2)], vec![(0, 2)]] },
+            ));
+            // ... with more traffic: registered right away / after a Suspect of it and news of others / twice / never
+            cases.push((
+                format!("learned_{hn}_at_{inc}_registered_early_late_twice_never"),
+                AScript {
+                    delta: 100,
+                    msgs: vec![
+                        MOp::Sync(s, 0, vec![up(2, h, 1, inc), up(1, 'H', 2, 0)]),
+                        MOp::Suspect(2, inc),
+                        MOp::Sync(s, 3, vec![up(0, 'F', 9, 0)]),
+                        MOp::Sync(1, 4, vec![up(2, h, 1, inc)]),
+                    ],
+                    regs: vec![vec![], vec![(1, 2)], vec![(4, 2)], vec![(2, 2), (3, 2), (4, 0), (4, 1)]],
+                },
+            ));
+        }
+    }
+    // learned because the member itself sent a Sync (the receiver stamps the sender Healthy)
+    cases.push((
+        "learned_as_the_sender_of_a_sync_then_registered".into(),
+        AScript { delta: 100, msgs: vec![MOp::Sync(2, 5, vec![]), MOp::Sync(s, 1, vec![up(1, 'D', 3, 0)])], regs: vec![vec![], vec![(1, 2)], vec![(2, 2), (2, 1)], vec![(2, s)]] },
+    ));
+    // failed by gossip, registered, then the same Failed news again and a stale Healthy one
+    cases.push((
+        "failed_member_registered_between_redeliveries".into(),
+        AScript {
+            delta: 100,
+            msgs: vec![MOp::Sync(s, 7, vec![up(2, 'F', 7, 0)]), MOp::Sync(s, 7, vec![up(2, 'F', 7, 0)]), MOp::Sync(1, 2, vec![up(2, 'H', 2, 0)])],
+            regs: vec![vec![], vec![(1, 2)], vec![(2, 2)], vec![(3, 2)]],
+        },
+    ));
+    // refuted to incarnation 1 by an Alive, registered afterwards; the local node registered as its own peer
+    cases.push((
+        "refuted_member_and_the_local_node_registered".into(),
+        AScript {
+            delta: 100,
+            msgs: vec![MOp::Sync(s, 2, vec![up(0, 'D', 2, 0)]), MOp::Alive(0, 1), MOp::Suspect(0, 1)],
+            regs: vec![vec![], vec![(2, 0)], vec![(3, 0), (3, MVS_LOCAL)], vec![(1, 0), (1, MVS_LOCAL)]],
+        },
+    ));
+    // the Sync is refused by the jump limit: the member is NOT in the view, add_peer enters the placeholder
+    cases.push((
+        "state_refused_by_the_jump_limit_then_registered".into(),
+        AScript { delta: 1, msgs: vec![MOp::Sync(s, 4, vec![up(2, 'H', 4, 3), up(1, 'H', 4, 1)])], regs: vec![vec![], vec![(1, 2)], vec![(1, 1)]] },
+    ));
+    for (name, sc) in cases {
+        acase(rep, m, stream, &name, &sc, names);
+        rep.hit("reg.directed_scripts");
+    }
+}
+
+fn add_peer_stream(rep: &mut Report, m: &mut Model, names: &[String], root: &Rng, cases: u64) {
+    let rt = tokio::runtime::Builder::new_current_thread().build().unwrap();
+    let _guard = rt.enter();
+    let stream = "mgr.late_add_peer";
+    let mut r = root.fork("mgr.late_add_peer");
+    for case in 0..cases {
+        let n = 2 + r.below(3) as usize;
+        let members = 1 + r.below(3) as usize;
+        let delta: u64 = if r.chance(1, 5) { 2 } else { 100 };
+        let nmsgs = 2 + r.below(8) as usize;
+        let mut msgs: Vec<MOp> = vec![];
+        // first message that can put member mm into the view
+        let mut first: Vec<Option<usize>> = vec![None; members];
+        for k in 0..nmsgs {
+            let mm = r.below(members as u64) as usize;
+            let small_inc = |r: &mut Rng| if r.chance(2, 3) { 0 } else { 1 + r.below(2) };
+            let op = match r.below(10) {
+                0..=5 => {
+                    let from = if r.chance(1, 4) { r.below(members as u64) as usize } else { MVS_SENDER };
+                    let b: Vec<Upd> = (0..r.below(3) + if from == MVS_SENDER { 1 } else { 0 })
+                        .map(|_| Upd { m: r.below(members as u64) as usize, h: r.below(4) as usize, ts: r.below(5) + if r.chance(1, 3) { 3 * k as u64 + 10 } else { 0 }, inc: small_inc(&mut r) })
+                        .collect();
+                    MOp::Sync(from, r.below(6) + if r.chance(1, 3) { 20 } else { 0 }, b)
+                }
+                6 | 7 => MOp::Suspect(mm, small_inc(&mut r)),
+                _ => MOp::Alive(mm, 1 + r.below(2)),
+            };
+            if let MOp::Sync(from, _, b) = &op {
+                for x in 0..members {
+                    if first[x].is_none() && (*from == x || b.iter().any(|u| u.m == x)) {
+                        first[x] = Some(k);
+                    }
+                }
+            }
+            msgs.push(op);
+        }
+        let mut regs: Vec<Vec<(usize, usize)>> = vec![vec![]];
+        for _ in 1..n {
+            let mut rs = vec![];
+            for _ in 0..1 + r.below(3) {
+                let mm = r.below(members as u64) as usize;
+                let pos = match first[mm] {
+                    Some(f) if !r.chance(1, 6) => f + 1 + r.below((nmsgs - f) as u64) as usize,
+                    _ => r.below(nmsgs as u64 + 1) as usize,
+                };
+                rs.push((pos, mm));
+            }
+            regs.push(rs);
+        }
+        let sc = AScript { delta, msgs, regs };
+        acase(rep, m, stream, &format!("seeded case {case}"), &sc, names);
+        if case == 0 {
+            rep.sample(json!({"stream": stream, "managers": n, "messages": sc.msgs.iter().map(|e| e.line(0)).collect::<Vec<_>>(), "add_peer_before_message(position, member)_per_manager": sc.regs}));
+        }
+    }
+}
+
 fn main() {
     let args = parse_args();
     let mut rep = Report::new(
@@ -1956,6 +2318,9 @@ fn main() {
         "tick", "sync_time.ahead_of_clock", "sync_time.behind_clock",
         "mgr.sync", "mgr.sync.rejected_delta", "mgr.suspect.remote", "mgr.suspect.self", "mgr.suspect.already_pending",
         "mgr.alive.refuted", "mgr.alive.ignored", "mgr.alive.rejected_delta", "mgr.add_peer",
+        "reg.add_peer.on_absent", "reg.add_peer.on_healthy.inc0", "reg.add_peer.on_healthy.inc_ge1", "reg.add_peer.on_degraded.inc0",
+        "reg.add_peer.on_degraded.inc_ge1", "reg.add_peer.on_failed.inc0", "reg.add_peer.on_failed.inc_ge1", "reg.add_peer.on_unknown.inc0",
+        "reg.add_peer.on_unknown.inc_ge1",
         "cluster.add_peer", "cluster.round", "cluster.round.no_targets", "cluster.round.suspicion_expired",
         "cluster.round.several_suspicions_expired", "cluster.round.view_truncated", "cluster.round.timestamp_tie_at_the_cut",
         "cluster.suspect_node", "cluster.suspect_node.degraded", "cluster.deliver.sync", "cluster.deliver.sync_to_its_own_sender",
@@ -1989,6 +2354,7 @@ fn main() {
     directed_refute(&mut rep, &mut m, &names);
     directed_manager(&mut rep, &mut m, &names);
     directed_alive_mgr(&mut rep, &mut m, &names);
+    directed_add_peer(&mut rep, &mut m, &names);
     {
         let rt = tokio::runtime::Builder::new_current_thread().build().unwrap();
         let _guard = rt.enter();
@@ -2156,6 +2522,7 @@ fn main() {
         let t0 = std::time::Instant::now();
         refute_stream(&mut rep, &mut m, &names, &root, 1500 * scale);
         alive_stream(&mut rep, &mut m, &names, &root, 800 * scale);
+        add_peer_stream(&mut rep, &mut m, &names, &root, 600 * scale);
         rep.note(&format!("refute_vs_stale + mgr.alive_vs_stale: {:.1}s", t0.elapsed().as_secs_f64()));
     }
 
@@ -2761,7 +3128,13 @@ fn manager_streams(_args: &Args, root: &Rng, rep: &mut Report, m: &mut Model, na
             op.apply(&g, names);
             let now = (cview_of_list(&g.membership_view(), names), g.lamport_time(), g.incarnation_rejected_count());
             match &op {
-                MOp::AddPeer(_) => rep.hit("mgr.add_peer"),
+                MOp::AddPeer(p) => {
+                    rep.hit("mgr.add_peer");
+                    rep.hit(&add_peer_hit(*p, &prev.0));
+                    for (c, w) in add_peer_classes(*p, &prev.0, &now.0) {
+                        rep.violation_capped(&c, &w, json!({"stream": "mgr.mixed", "history": lines, "max_incarnation_delta": max_delta, "before": regs_txt(&prev.0), "after": regs_txt(&now.0)}));
+                    }
+                }
                 MOp::Sync(s, ..) => {
                     rep.hit("mgr.sync");
                     if now.2 > prev.2 {
@@ -3027,6 +3400,12 @@ impl<'a> Clu<'a> {
         // ---- oracles on the real managers' own outputs
         for (c, w) in mono_classes("tensor_chain.gossip.cluster", opname, (&before.0, before.1), (&after.0, after.1)) {
             self.flag(&c, format!("{w} {at}"));
+        }
+        // add_peer leaves every entry of the view alone (add_peer_keeps_every_entry)
+        if let COp::AddPeer(_, p) = op {
+            for (c, w) in add_peer_classes(*p, &before.0, &after.0) {
+                self.flag(&c, format!("{w} {at}"));
+            }
         }
         // an Alive that was not refused by the jump limit leaves a known member at >= the announced
         // incarnation, whatever health the node saw it in (mgr_alive_records_announced) ...
